@@ -58,7 +58,7 @@ class _Srv(object):
         self.rbuf = b''
 
     def _greet(self, conn):
-        conn.sendall(server_hello(self.base))
+        conn.sendall(server_hello(OVERRIDE.get('hello_base', self.base)))      # OVERRIDE: the server offers 1.1, the client withdrew it
         self.client_hello = self.read_frames(1, conn=conn, term=F.DELIM10)
         self.conn = conn
 
@@ -358,6 +358,10 @@ class Conn(object):
         else:
             dh = P12.device_handler()
         self.sess = rec_class(kind)(dh)
+        if OVERRIDE.get('client_drop11'):
+            # the application pins the session to base:1.0 by withdrawing base:1.1 from the client capabilities before connect
+            try: self.sess._client_capabilities.remove('urn:ietf:params:netconf:base:1.1')
+            except KeyError: pass
         self.events = []                       # ('cb', raw, root, n_reads) | ('err', class name)
         conn = self
         class L(SessionListener):
@@ -464,6 +468,7 @@ def run_inbound(case):
 
 
 SSH_OPTS = {}
+OVERRIDE = {}
 
 def run_outbound(case, done):
     """C02, outbound direction through the real transport: after the hello exchange the client submits case['msgs'] with
@@ -475,10 +480,13 @@ def run_outbound(case, done):
     SSH_OPTS.clear()
     if case.get('ssh_window'):
         SSH_OPTS.update(default_window_size=case['ssh_window'][0], default_max_packet_size=case['ssh_window'][1])
+    OVERRIDE.clear()
+    if case.get('client_drop11'):
+        OVERRIDE.update(client_drop11=True, hello_base=11)
     try:
         c = Conn(kind, base)
     finally:
-        SSH_OPTS.clear()
+        SSH_OPTS.clear(); OVERRIDE.clear()
     if c.open_error:
         obs['open_error'] = c.open_error
         return obs
